@@ -179,6 +179,10 @@ def _create_p_value_mask_file(
     t0 = time.time()
     ct_complete = 0
 
+    this_cluster_stats = None
+    this_idx_values = None
+    this_idx_to_pair = None
+    this_tree_as_leaves = None
     for col0 in range(0, n_pairs, n_per):
         col1 = col0+n_per
         tmp_path = mkstemp_clean(
